@@ -4,6 +4,7 @@ package quickfix
 
 import (
 	"bytes"
+	"strings"
 	"time"
 
 	"github.com/quickfixgo/quickfix/datadictionary"
@@ -293,4 +294,24 @@ func VerifHarness_C09_session() {
 		verifAssert(n == 1, "next-well-formed-message-processed-after-garbage")
 	}
 	verifObserve("sent", len(ws))
+}
+
+func init() { verifRegister("C09_settings", VerifHarness_C09_settings) }
+
+// C09_settings: ParseSettings returns a value or an error on every sequence of lines from a vocabulary
+// covering each line class (blank, comment, section headers, settings, junk).
+func VerifHarness_C09_settings() {
+	vocab := []string{"", "# comment", "[DEFAULT]", "[SESSION]", "[session]", "k=v", "BeginString=FIX.4.2", "SenderCompID=A", "TargetCompID=B", "=x", "junk", "[OTHER]"}
+	n := verifConc(ndInt("lines", 0, verifBound(3, 4)))
+	text := ""
+	for i := 0; i < n; i++ {
+		text += vocab[verifConc(ndInt("line", 0, len(vocab)-1))] + "\n"
+	}
+	s, err := ParseSettings(strings.NewReader(text))
+	if err == nil {
+		verifAssert(s != nil, "settings-value-or-error")
+		_ = s.GlobalSettings()
+		_ = s.SessionSettings()
+	}
+	verifObserve("ok", verifIteInt(err == nil, 1, 0))
 }
